@@ -459,6 +459,52 @@ def extract(bdir):
     out.append("/-- call_out: the value `%s` stores in the head -/\ndef headDec (delta : Int) : Int :=\n  (delta %s 1)\n"
                % (src_of(decs[0], text), "-" if decs[0]["opcode"] == "--" else "+"))
 
+    # ---- boolean tests on the owner: dropped in call_out(), skipped / counted in get_all_call_outs ------------------
+    def macro_tok(n):
+        b = n.get("range", {}).get("begin", {})
+        loc = b.get("expansionLoc")
+        if not loc or "offset" not in loc:
+            return None
+        return text[loc["offset"]:loc["offset"] + loc.get("tokLen", 0)]
+
+    def bexp(site, n):
+        """condition over the atoms `X->ob` (obNonNull) and `X->ob->flags & O_DESTRUCTED` (obDead) -> Lean Bool"""
+        n = strip(n)
+        k = n.get("kind")
+        if k == "ImplicitCastExpr":
+            return bexp(site, n["inner"][0])
+        if k == "BinaryOperator" and n.get("opcode") in ("&&", "||"):
+            return "(%s %s %s)" % (bexp(site, n["inner"][0]), n["opcode"], bexp(site, n["inner"][1]))
+        if k == "UnaryOperator" and n.get("opcode") == "!":
+            return "(!%s)" % bexp(site, n["inner"][0])
+        if k == "BinaryOperator" and n.get("opcode") == "&":
+            c = chain(n["inner"][0])
+            if len(c) >= 3 and c[-2:] == ("ob", "flags") and macro_tok(strip(n["inner"][1])) == "O_DESTRUCTED":
+                return "obDead"
+        if k == "MemberExpr" and chain(n)[-1] == "ob" and len(chain(n)) == 2:
+            return "obNonNull"
+        raise TieBroken("c10:" + site, "%s: condition leaves the grammar: %s" % (site, src_of(n, text)))
+
+    fn = ast_function(bdir, SRC, "call_out")
+    drops = [n for n in walk(body_of(fn)) if n.get("kind") == "IfStmt" and len(kids(n)) == 3
+             and any(x.get("kind") == "CallExpr" and any(ref_name(y) == "free_call" for y in walk(x["inner"][0]))
+                     for x in walk(kids(n)[1]))]
+    need("call_out.drop", len(drops) == 1, "the `if (cop->ob && (cop->ob->flags & O_DESTRUCTED))` drop test not found")
+    out.append("/-- call_out: the entry is dropped without a call when `%s` -/\ndef dropCond (obNonNull obDead : Bool) : Bool :=\n  %s\n"
+               % (src_of(kids(drops[0])[0], text), bexp("call_out.drop", kids(drops[0])[0])))
+    fn = ast_function(bdir, SRC, "get_all_call_outs")
+    skips = [n for n in walk(body_of(fn)) if n.get("kind") == "IfStmt" and len(kids(n)) == 2
+             and kids(n)[1].get("kind") == "ContinueStmt"]
+    need("get_all_call_outs.skip", len(skips) == 1, "the `if (...) continue;` of the row loop not found")
+    out.append("/-- get_all_call_outs: no row when `%s` -/\ndef infoSkip (obNonNull obDead : Bool) : Bool :=\n  %s\n"
+               % (src_of(kids(skips[0])[0], text), bexp("get_all_call_outs.skip", kids(skips[0])[0])))
+    counts = [n for n in walk(body_of(fn)) if n.get("kind") == "IfStmt" and len(kids(n)) == 2
+              and kids(n)[1].get("kind") == "UnaryOperator" and kids(n)[1].get("opcode") == "++" and ref_name(kids(n)[1]["inner"][0]) == "i"]
+    need("get_all_call_outs.count", len(counts) == 1, "the `if (...) i++;` of the counting loop not found")
+    out.append("/-- get_all_call_outs: the counting loop counts an entry when `%s` (must be the complement of the skip test) -/\n"
+               "def infoCount (obNonNull obDead : Bool) : Bool :=\n  %s\n"
+               % (src_of(kids(counts[0])[0], text), bexp("get_all_call_outs.count", kids(counts[0])[0])))
+
     # ---- allocation chunk -----------------------------------------------------------------------------------
     m = re.search(r"^#define\s+CHUNK_SIZE\s+(\d+)\s*$", text, re.M)
     need("CHUNK_SIZE", m is not None, "#define CHUNK_SIZE not found")
